@@ -28,6 +28,7 @@ const c18sec = int64(1e9)
 type c18Scenario struct {
 	name   string
 	n      int
+	same   bool // every record of a container carries the same message (samples share a series)
 	labels func(i int) map[string]string
 	query  string
 	params logqlengine.EvalParams
@@ -57,6 +58,8 @@ var c18Scenarios = []c18Scenario{
 		return m
 	}},
 	{name: "log-5", n: 5, query: `{}`, params: c18Log()},
+	{name: "count-samemsg-2", n: 2, same: true, query: `count_over_time({}[4s])`, params: c18Range()},
+	{name: "max-samemsg-2", n: 2, same: true, query: `max(count_over_time({}[4s])) by (container, msg)`, params: c18Range()},
 }
 
 func c18ByName(n string) c18Scenario {
@@ -68,13 +71,20 @@ func c18ByName(n string) c18Scenario {
 	panic("unknown scenario " + n)
 }
 
+func c18Msg(sc c18Scenario, i, j int) string {
+	if sc.same {
+		return "same"
+	}
+	return fmt.Sprintf("m%d-%d", i, j)
+}
+
 func c18Containers(sc c18Scenario) []fakedocker.Container {
 	var out []fakedocker.Container
 	for i := 0; i < sc.n; i++ {
 		var recs []fakedocker.Rec
 		for j := 0; j < 3; j++ {
 			// distinct timestamps across all containers
-			recs = append(recs, fakedocker.Rec{Stream: byte(1 + j%2), TS: fakedocker.TS(int64(1+j)*c18sec + int64(i)*1000 + int64(j)), Msg: fmt.Sprintf("m%d-%d", i, j)})
+			recs = append(recs, fakedocker.Rec{Stream: byte(1 + j%2), TS: fakedocker.TS(int64(1+j)*c18sec + int64(i)*1000 + int64(j)), Msg: c18Msg(sc, i, j)})
 		}
 		var labels map[string]string
 		if sc.labels != nil {
